@@ -301,6 +301,27 @@ fn perturb_templates(t: &[u8], rep: &mut Report) {
             }
         }
     }
+    // every position x EVERY byte value (the thirteen structural symbols above cover the grammar; this covers whatever a
+    // decoder might let stand in for them: '+', '-', control characters that alias digits after a bit trick, 0x80 | digit ...)
+    for crlf in [false, true] {
+        let mut base = t.to_vec();
+        if crlf {
+            base.extend_from_slice(b"\r\n");
+        }
+        for p in 0..base.len() {
+            for v in 0..=255u8 {
+                let mut b = base.clone();
+                b[p] = v;
+                check_string(&b, "every_byte_at_every_position", rep);
+            }
+            for v in [b'+', b'-', b'x', 0x10, 0x19, 0x7F, 0x80, 0xB0] {
+                let mut b = base.clone();
+                b.insert(p, v);
+                check_string(&b, "every_byte_at_every_position", rep);
+            }
+        }
+        rep.add("positions_swept_with_every_byte", base.len() as u64);
+    }
     // every position replaced by (and every gap filled with) a multi-byte sequence that some Unicode-aware notion of
     // "digit", "letter", "space" or "line end" would accept: the format is ASCII, so every one of these is malformed
     for crlf in [false, true] {
@@ -633,6 +654,7 @@ pub fn run(ctx: &Ctx) -> Outcome {
         floor("alphabet-5 enumeration complete (125 prefixes)", report.get("alpha5_prefixes_completed") == 125, report.get("alpha5_prefixes_completed")),
         floor("multi-byte (non-ASCII) sequences substituted and inserted at every position of every template", report.get("multibyte_substitutions") >= 4 * 2 * 26 * 20, report.get("multibyte_substitutions")),
         floor("lines with the largest possible byte sums (right and wrong checksums)", report.get("largest_byte_sum_lines") == 24, report.get("largest_byte_sum_lines")),
+        floor("every byte value at every position of every template", report.get("positions_swept_with_every_byte") > 150, report.get("positions_swept_with_every_byte")),
         floor("all templates perturbed", report.get("templates_completed") == tpl.len() as u64, report.get("templates_completed")),
         floor("class ok observed >= 1000x", report.get("class/ok") >= 1000, report.get("class/ok")),
         floor("class malformed observed >= 1000x", report.get("class/malformed") >= 1000, report.get("class/malformed")),
